@@ -5,6 +5,7 @@ import XsdataModel.Gen.Derive
 import XsdataModel.Gen.Attrs
 import XsdataModel.Gen.Subst
 import XsdataModel.Gen.Compound
+import XsdataModel.Gen.TypeLookup
 open Lean Proto Py Xs.Gen
 
 namespace OpsGenDerive
@@ -72,6 +73,16 @@ def run (op : String) (a : Json) : Option (Except String Json) :=
         | .plain s => jObj [("plain", jStr s.name)]
         | .compound c => jObj [("compound", jObj [("names", jList jStr c.names), ("min", jNat c.min),
             ("max", jNat c.max), ("sequence", jOpt jNat c.sequence)])]) (compoundFields ss))
+  | "gen.find_dependency" => some do
+      let dTag (j : Json) : Except String CTag := match j with
+        | .str "Element" => pure .element | .str "ComplexType" => pure .complexType
+        | .str "SimpleType" => pure .simpleType | .str "Attribute" => pure .attribute
+        | _ => .error "bad tag"
+      let cands ← (← asArr (fld a "cands")).mapM dTag
+      let target ← match fld a "target" with
+        | .null => pure (none : Option Nat)
+        | j => (dNat j).map some
+      pure <| ok (jOpt jNat (findDependency (← dTag (fld a "tag")) cands (fun i => target = some i)))
   | _ => none
 
 end OpsGenDerive
